@@ -119,9 +119,24 @@ pub fn envprobe(args: &[String]) {
                 let mem = Memfs::new();
                 let _ = mem.mkdir_p(cwd);
                 let _ = mem.set_cwd(cwd);
-                for d in &args[3..] {
+                // args[3] says what the entry called `name` is in the directories that hold it
+                let kind = args[3].as_str();
+                for d in &args[4..] {
                     let _ = mem.mkdir_p(d);
-                    let _ = mem.mkfile(Path::new(d).join(name));
+                    let held = Path::new(d).join(name);
+                    match kind {
+                        "kind=dir" => {
+                            let _ = mem.mkdir_p(&held);
+                        },
+                        "kind=link" => {
+                            let real = Path::new(d).join(format!("{}.real", name));
+                            let _ = mem.mkfile(&real);
+                            let _ = mem.symlink(&held, &real);
+                        },
+                        _ => {
+                            let _ = mem.mkfile(&held);
+                        },
+                    }
                 }
                 let opt = |x: Option<PathBuf>| match x {
                     Some(p) => format!("ok\t{}", esc_line(&ps(&p))),
@@ -485,16 +500,31 @@ fn c18(ctx: &Ctx, rep: &mut Report) {
         // which candidate directories contain the file (bit mask from the config index)
         let mut r2 = Rng::new(ctx.seed, &format!("c18-contain-{}", ci));
         let mask = r2.below(1 << cands.len());
+        // what the held entry is: mostly a regular file, now and then a directory of that name or a link to a file
+        // next to it ("the first directory that contains name" does not ask what kind of thing name is)
+        let kind = match r2.below(6) {
+            0 => "kind=dir",
+            1 => "kind=link",
+            _ => "kind=file",
+        };
         for (k, c) in cands.iter().enumerate() {
             let dir = d(c);
             let _ = std::fs::remove_dir_all(&dir);
             if mask & (1 << k) != 0 {
                 std::fs::create_dir_all(&dir).unwrap();
-                std::fs::write(format!("{}/{}", dir, name), b"x").unwrap();
+                let held = format!("{}/{}", dir, name);
+                match kind {
+                    "kind=dir" => std::fs::create_dir_all(&held).unwrap(),
+                    "kind=link" => {
+                        std::fs::write(format!("{}.real", held), b"x").unwrap();
+                        std::os::unix::fs::symlink(format!("{}.real", name), &held).unwrap();
+                    },
+                    _ => std::fs::write(&held, b"x").unwrap(),
+                }
             }
         }
         let holders: Vec<String> = cands.iter().enumerate().filter(|(k, _)| mask & (1 << k) != 0).map(|(_, c)| d(c)).collect();
-        let mut args = vec!["xdg".to_string(), name.to_string(), cwd.clone()];
+        let mut args = vec!["xdg".to_string(), name.to_string(), cwd.clone(), kind.to_string()];
         args.extend(holders.iter().cloned());
         set_case("c18-child", &format!("{:?}", env));
         WATCHDOG_PAUSED.store(true, std::sync::atomic::Ordering::Relaxed);
@@ -581,11 +611,12 @@ fn c18(ctx: &Ctx, rep: &mut Report) {
                             None => Err(()),
                         },
                         format!(
-                            "XDG_CONFIG_HOME={},XDG_CONFIG_DIRS={},HOME={},hit={}",
+                            "XDG_CONFIG_HOME={},XDG_CONFIG_DIRS={},HOME={},hit={},{}",
                             st("XDG_CONFIG_HOME"),
                             st("XDG_CONFIG_DIRS"),
                             st("HOME"),
-                            pos.map(|p| p.min(3).to_string()).unwrap_or_else(|| "none".into())
+                            pos.map(|p| p.min(3).to_string()).unwrap_or_else(|| "none".into()),
+                            kind
                         ),
                     )
                 },
